@@ -1,5 +1,7 @@
 import RsModel.Lemmas.ProvNest
 import RsModel.Lemmas.WarmMap
+import RsModel.Lemmas.HistoryAnswers
+import RsModel.Lemmas.WarmStrict
 /-!
 # C04 on warm caches: the second `map()` of a tree with CachedSource nodes
 
@@ -51,5 +53,92 @@ theorem nestTree_second_map_bytes (cons : Text → Option Text) (s : Src) (σ : 
       refine ⟨o1, name, T, rfl, by rw [e1]; exact b1, b1, e2, e3, b2, ?_⟩
       rw [e2, e3]
       exact b3
+
+/-- a map that resolves every byte like the map of a cache-free tree of the nested shape inherits its provenance statement -/
+theorem nest_bytes_of_same_resolution (cons : Text → Option Text) (s0 : Src) (hW : s0.NestWD cons) (hz : s0.NestSized)
+    (hasc : ∀ n T, cons n = some T → IsAscii T ∧ T.length < USIZE_MAX) (f1 : Bool)
+    (hsm : ∀ m ∈ chunkMs (s0.stream ⟨true, true⟩ []).1.evs, m.small)
+    (sm1 sm2 : SMap) (h1 : (getMap s0 ⟨true, f1⟩ []).1 = some sm1)
+    (htw : (attrFrom (decode sm2.mappings) startPos s0.src).map (Option.map (resolveMF sm2))
+      = (attrFrom (decode sm1.mappings) startPos s0.src).map (Option.map (resolveMF sm1))) :
+    ∀ (i : Nat) (o2 : Orig), (attrFrom (decode sm2.mappings) startPos s0.src)[i]? = some (some o2) →
+      ∃ (o1 : Orig) (name T : Text), (attrFrom (decode sm1.mappings) startPos s0.src)[i]? = some (some o1)
+        ∧ sm2.sources[o2.src]? = some name ∧ sm1.sources[o1.src]? = some name ∧ o2.line = o1.line ∧ o2.col = o1.col
+        ∧ sm1.sourcesContent[o1.src]? = some T
+        ∧ ((∃ q d, q + d < T.length ∧ adv startPos (T.take q) = ⟨o2.line, o2.col⟩ ∧ s0.src[i]? = T[q + d]?
+              ∧ adv startPos (T.take (q + d)) = ⟨o2.line, o2.col + d⟩
+              ∧ ∃ tok k0 l0 c0, TokPos T tok l0 c0 k0 ∧ k0 ≤ q ∧ q + d < k0 + tok.length)
+            ∨ (∃ r ∈ s0.allReplsN, ∃ cl ∈ splitLines r.content, ∃ e, e < cl.length ∧ s0.src[i]? = cl[e]?)) := by
+  intro i o2 hget
+  have hi := congrArg (fun l => l[i]?) htw
+  simp only [List.getElem?_map, hget, Option.map_some] at hi
+  cases h1i : (attrFrom (decode sm1.mappings) startPos s0.src)[i]? with
+  | none => rw [h1i] at hi; simp at hi
+  | some x =>
+    rw [h1i] at hi
+    simp only [Option.map_some, Option.some.injEq] at hi
+    cases x with
+    | none => simp at hi
+    | some o1 =>
+      simp only [Option.map_some, Option.some.injEq, resolveMF, NLoc.mk.injEq] at hi
+      obtain ⟨e1, e2, e3, _⟩ := hi
+      obtain ⟨name, T, b1, b2, b3⟩ := nestTree_map_bytes cons s0 hW hz hasc f1 hsm sm1 h1 i o1 h1i
+      refine ⟨o1, name, T, rfl, by rw [e1]; exact b1, b1, e2, e3, b2, ?_⟩
+      rw [e2, e3]
+      exact b3
+
+/-- **C04 for every `get_map` of every history** (columns = true): whatever map a `get_map` of the history returns, it resolves
+every byte like the map `sm1` of the cache-free tree, hence to the byte's true origin -/
+theorem history_map_bytes (cons : Text → Option Text) (s : Src) (hk : s.NoCR) (hn : s.ids.Nodup) (σ : Store) (hc : Cold σ s.ids)
+    (h : s.ModeHypC) (hs : s.SmallF) (hW : s.strip.NestWD cons) (hz : s.strip.NestSized)
+    (hasc : ∀ n T, cons n = some T → IsAscii T ∧ T.length < USIZE_MAX)
+    (hsmall1 : ∀ m ∈ chunkMs (s.strip.stream ⟨true, true⟩ []).1.evs, m.small)
+    (hsmall2 : ∀ m ∈ chunkMs ((s.warm ⟨true, true⟩).stream ⟨true, true⟩ []).1.evs, m.small)
+    (sm1 : SMap) (h1 : (getMap s.strip ⟨true, true⟩ []).1 = some sm1)
+    (calls : List Opts) (k : Nat) (hcall : calls[k]? = some ⟨true, true⟩) :
+    ∃ r, (runCalls s calls σ).1[k]? = some r ∧ ∀ sm2, mapOfEvs true r.evs = some sm2 →
+      ∀ (i : Nat) (o2 : Orig), (attrFrom (decode sm2.mappings) startPos s.src)[i]? = some (some o2) →
+      ∃ (o1 : Orig) (name T : Text), (attrFrom (decode sm1.mappings) startPos s.src)[i]? = some (some o1)
+        ∧ sm2.sources[o2.src]? = some name ∧ sm1.sources[o1.src]? = some name ∧ o2.line = o1.line ∧ o2.col = o1.col
+        ∧ sm1.sourcesContent[o1.src]? = some T
+        ∧ ((∃ q d, q + d < T.length ∧ adv startPos (T.take q) = ⟨o2.line, o2.col⟩ ∧ s.src[i]? = T[q + d]?
+              ∧ adv startPos (T.take (q + d)) = ⟨o2.line, o2.col + d⟩
+              ∧ ∃ tok k0 l0 c0, TokPos T tok l0 c0 k0 ∧ k0 ≤ q ∧ q + d < k0 + tok.length)
+            ∨ (∃ r ∈ s.strip.allReplsN, ∃ cl ∈ splitLines r.content, ∃ e, e < cl.length ∧ s.src[i]? = cl[e]?)) := by
+  obtain ⟨r, a1, a2⟩ := history_map_NA s hk hn σ hc h hs hsmall1 hsmall2 calls k hcall
+  refine ⟨r, a1, fun sm2 hsm2 => ?_⟩
+  have hsn := Src.strip_nc s
+  obtain ⟨hn', _, _⟩ := nc_facts _ hsn
+  have e1 := getMap_names s.strip (Src.strip_modeHypC s h) hn' [] [] (cold_nil _) (cold_nil _) true hsmall1 sm1 h1
+  have e2 := a2 sm2 hsm2
+  have := nest_bytes_of_same_resolution cons s.strip hW hz hasc true hsmall1 sm1 sm2 h1 (by rw [Src.strip_src, e2]; rw [Src.strip_src] at e1; rw [e1]; rfl)
+  rw [Src.strip_src] at this
+  exact this
+
+/-- **C11 for every `get_map` of every history** (columns = true): segments at strictly increasing characters of `source()` -/
+theorem history_map_strict (s : Src) (hk : s.NoCR) (hn : s.ids.Nodup) (σ : Store) (hc : Cold σ s.ids)
+    (h : s.ModeHypC) (hst : s.StrictMaps) (hs : s.SmallF)
+    (hsmall1 : ∀ m ∈ chunkMs (s.strip.stream ⟨true, true⟩ []).1.evs, m.small)
+    (hsmall2 : ∀ m ∈ chunkMs ((s.warm ⟨true, true⟩).stream ⟨true, true⟩ []).1.evs, m.small)
+    (calls : List Opts) (k : Nat) (hcall : calls[k]? = some ⟨true, true⟩) :
+    ∃ r, (runCalls s calls σ).1[k]? = some r ∧ ∀ sm, mapOfEvs true r.evs = some sm →
+      (decode sm.mappings).Pairwise mlt
+      ∧ ∀ m ∈ decode sm.mappings, ∃ j, j < s.src.length ∧ adv startPos (s.src.take j) = ⟨m.gl, m.gc⟩ := by
+  refine ⟨_, runCalls_results s hk hn σ hc calls k _ hcall, ?_⟩
+  intro sm hsm
+  unfold answerOf at hsm
+  have hck := Src.noCR_cachedOK s hk
+  split at hsm
+  · obtain ⟨_, a2⟩ := Src.warmF_NA s h hck hs
+    have hwnc := Src.warm_nc s ⟨true, true⟩ hck
+    obtain ⟨hwn, _, _⟩ := nc_facts _ hwnc
+    have := getMap_strict (s.warm ⟨true, true⟩) a2 (Src.warm_strict s h hst hs) hwn [] (cold_nil _) true hsmall2 sm (by simp only [getMap]; exact hsm)
+    rw [Src.warm_src] at this
+    exact this
+  · have hsn := Src.strip_nc s
+    obtain ⟨hn', _, _⟩ := nc_facts _ hsn
+    have := getMap_strict s.strip (Src.strip_modeHypC s h) (Src.strip_strict s hst) hn' [] (cold_nil _) true hsmall1 sm (by simp only [getMap]; exact hsm)
+    rw [Src.strip_src] at this
+    exact this
 
 end Rs
